@@ -41,12 +41,13 @@ pub enum Mod {
     Undrained,
     /// the last peer only ticks every second round
     UnevenTicks,
-    /// local inputs handed over in descending handle order (1) or twice, a wrong value first (2)
+    /// local inputs handed over in descending handle order (1), twice with a wrong value first
+    /// (2), or with a different value when a frame's input is submitted again after a stall (3)
     InputStyle(u8),
 }
 
-pub const CORE_MENU: &[Mod] = &[Mod::Desync(1), Mod::NoChecksum, Mod::InputStyle(2), Mod::Undrained, Mod::Desync(3), Mod::UnevenTicks, Mod::InputStyle(1)];
-pub const NET_MENU: &[Mod] = &[Mod::Desync(1), Mod::NoChecksum, Mod::InputStyle(2), Mod::Desync(3), Mod::InputStyle(1)];
+pub const CORE_MENU: &[Mod] = &[Mod::Desync(1), Mod::NoChecksum, Mod::InputStyle(2), Mod::Undrained, Mod::InputStyle(3), Mod::Desync(3), Mod::UnevenTicks, Mod::InputStyle(1)];
+pub const NET_MENU: &[Mod] = &[Mod::Desync(1), Mod::NoChecksum, Mod::InputStyle(2), Mod::InputStyle(3), Mod::Desync(3), Mod::InputStyle(1)];
 
 fn apply_mod(s: &Scenario, m: Mod) -> Option<Scenario> {
     let mut x = s.clone();
